@@ -209,6 +209,8 @@ impl Snapshot {
 			return Ok(Some((item.1, item.0.seq_num()))); // Key found, return the value
 		}
 		drop(memtable_lock); // Release the lock on the active memtable
+		#[cfg(surrealkv_verif)]
+		crate::verif::yield_point("get:after-active");
 
 		// Read lock on the immutable memtables
 		let memtable_lock = self.core.immutable_memtables.read()?;
@@ -224,6 +226,8 @@ impl Snapshot {
 			}
 		}
 		drop(memtable_lock); // Release the lock on the immutable memtables
+		#[cfg(surrealkv_verif)]
+		crate::verif::yield_point("get:after-immutables");
 
 		// Read lock on the level manifest
 		let level_manifest = self.core.level_manifest.read()?;
@@ -936,6 +940,8 @@ impl SnapshotIterator<'_> {
 	/// Creates a new iterator over a specific key range
 	fn new_from(core: Arc<Core>, seq_num: u64, range: InternalKeyRange) -> Result<Self> {
 		let iter_state = Snapshot::collect_iter_state_from(&core)?;
+		#[cfg(surrealkv_verif)]
+		crate::verif::yield_point("range:state-collected");
 
 		let merge_iter = KMergeIterator::new_from(iter_state, range);
 
